@@ -144,7 +144,9 @@ def render_module(spec):
            "                     Constant, Partial, Omit, Pick, Extend, AllFieldsRequired)", ""]
     for it in spec["items"]:
         k = it["kind"]
-        if k == "import":
+        if k == "raw":
+            out += [it["src"], ""]
+        elif k == "import":
             out += [f"import {it['module']}", ""]
         elif k == "from_import":
             out += [f"from {it['module']} import {', '.join(it['names'])}", ""]
@@ -602,6 +604,113 @@ def zoo_cases(rng, tier):
     return cases
 
 
+# ------------------------------------------------------------------ function / method signatures ("sig zoo")
+
+SIG_PRELUDE = """import functools
+
+
+def helper_fn(x=1):
+    return x
+
+
+class CallableThing:
+    def __call__(self, *a):
+        return 1
+
+
+CALLABLE_THING = CallableThing()
+
+
+class Marker:
+    pass
+"""
+DEFAULT_KINDS = {      # default kind -> source
+    "literal": "3", "string": "'x'", "none": "None", "class": "int", "localclass": "Marker", "lambda": "lambda v: v",
+    "function": "helper_fn", "partial": "functools.partial(helper_fn, 2)", "callable-instance": "CALLABLE_THING",
+    "mutable": "[]",
+}
+# parameter-kind layouts; {D} is the default under test ("" for the layouts without one)
+SHAPES_D = {
+    "pk-default": "a, b={D}",
+    "posonly-default": "a, b={D}, /, c=None",
+    "bare-star-kwonly": "a, *, qty={D}",
+    "varargs-kwonly": "a, *names, qty={D}",
+    "varargs-first-kwonly": "*names, qty={D}",
+    "everything": "a, /, b, *names, qty={D}, flag, **extra",
+}
+SHAPES_PLAIN = {
+    "posonly": "a, /, b",
+    "varargs": "a, *names",
+    "kwargs": "a, **extra",
+    "kwonly-mandatory": "a, *, qty",
+    "varargs-kwargs": "*names, **extra",
+    "bare-star-two": "*, qty, flag=None",
+}
+SITES = ["func", "struct-method", "plain-method", "dataclass-method", "staticmethod", "classmethod",
+         "struct-init", "plain-init", "dataclass-init"]
+
+
+def sig_module(site, dkind):
+    """all layouts of one default kind (or the default-free layouts) at one site"""
+    shapes = ({k: v.replace("{D}", DEFAULT_KINDS[dkind]) for k, v in SHAPES_D.items()} if dkind != "nodefault"
+              else SHAPES_PLAIN)
+    src, expect, classes = [SIG_PRELUDE], [], []
+    join = lambda first, ps: ", ".join([x for x in (first, ps) if x])
+    for i, (shape, ps) in enumerate(shapes.items()):
+        fn = f"f{i}"
+        if site == "func":
+            src.append(f"def {fn}({ps}):\n    return None\n")
+            expect.append([None, fn, shape])
+        elif site in ("struct-method", "classmethod"):
+            if i == 0:
+                src.append("class SM(Structure):\n    v: Integer = 1\n")
+                classes.append("SM")
+            if site == "classmethod":
+                src.append(f"    @classmethod\n    def {fn}({join('cls', ps)}):\n        return None\n")
+            else:
+                src.append(f"    def {fn}({join('self', ps)}):\n        return None\n")
+            expect.append(["SM", fn, shape])
+        elif site in ("plain-method", "staticmethod"):
+            if i == 0:
+                src.append("class PM:\n    tag = 1\n")
+                classes.append("PM")
+            if site == "staticmethod":
+                src.append(f"    @staticmethod\n    def {fn}({ps}):\n        return None\n")
+            else:
+                src.append(f"    def {fn}({join('self', ps)}):\n        return None\n")
+            expect.append(["PM", fn, shape])
+        elif site == "dataclass-method":
+            if i == 0:
+                src.append("@dataclasses.dataclass\nclass DM:\n    x: int = 0\n")
+                classes.append("DM")
+            src.append(f"    def {fn}({join('self', ps)}):\n        return None\n")
+            expect.append(["DM", fn, shape])
+        elif site == "struct-init":
+            src.append(f"class SI{i}(Structure):\n    v: Integer = 1\n\n    def __init__({join('self', ps)}):\n"
+                       "        super().__init__()\n")
+            classes.append(f"SI{i}")
+            expect.append([f"SI{i}", "__init__", shape])
+        elif site == "plain-init":
+            src.append(f"class PI{i}:\n    def __init__({join('self', ps)}):\n        self.done = True\n")
+            classes.append(f"PI{i}")
+            expect.append([f"PI{i}", "__init__", shape])
+        elif site == "dataclass-init":
+            src.append(f"@dataclasses.dataclass\nclass DI{i}:\n    x: int = 0\n\n    def __init__({join('self', ps)}):\n"
+                       "        self.x = 1\n")
+            classes.append(f"DI{i}")
+            expect.append([f"DI{i}", "__init__", shape])
+    return {"items": [{"kind": "raw", "src": "\n".join(src), "expect": expect, "classes": classes}]}
+
+
+def sig_cases(rng, tier):
+    cases = []
+    for site in SITES:
+        for dkind in ["nodefault"] + list(DEFAULT_KINDS):
+            cases.append({"suite": "stub", "mod": sig_module(site, dkind), "apd": True, "dflt": True, "seeds": [],
+                          "sig_site": site, "sig_default": dkind})
+    return cases
+
+
 def gen_cases(rng, tier, n_modules):
     cases = []
     for i in range(n_modules):
@@ -724,12 +833,38 @@ def params_of(fn, drop_first=True):
         plist = plist[1:]
     kwonly = [[p.arg, d is not None] for p, d in zip(a.kwonlyargs, a.kw_defaults)]
     return {"pos": plist, "kwonly": kwonly, "vararg": a.vararg is not None, "kw": a.kwarg is not None,
-            "deco": [ast.unparse(d) for d in fn.decorator_list]}
+            "deco": [ast.unparse(d) for d in fn.decorator_list], "full": full_params_ast(fn)}
+
+
+def full_params_ast(fn):
+    """[name, kind, has default] of every parameter (self/cls included); kinds po/pk/va/ko/vk as in inspect"""
+    a = fn.args
+    pos = [(p, "po") for p in a.posonlyargs] + [(p, "pk") for p in a.args]
+    nd = len(a.defaults)
+    out = [[p.arg, k, i >= len(pos) - nd] for i, (p, k) in enumerate(pos)]
+    if a.vararg is not None:
+        out.append([a.vararg.arg, "va", False])
+    out += [[p.arg, "ko", d is not None] for p, d in zip(a.kwonlyargs, a.kw_defaults)]
+    if a.kwarg is not None:
+        out.append([a.kwarg.arg, "vk", False])
+    return out
+
+
+_KINDS = {inspect.Parameter.POSITIONAL_ONLY: "po", inspect.Parameter.POSITIONAL_OR_KEYWORD: "pk",
+          inspect.Parameter.VAR_POSITIONAL: "va", inspect.Parameter.KEYWORD_ONLY: "ko",
+          inspect.Parameter.VAR_KEYWORD: "vk"}
+
+
+def full_params_runtime(obj):
+    """the same view of a runtime function object (for staticmethod/classmethod objects: of the wrapped function)"""
+    f = obj.__func__ if isinstance(obj, (staticmethod, classmethod)) else obj
+    return [[p.name, _KINDS[p.kind], p.default is not inspect.Parameter.empty]
+            for p in inspect.signature(f).parameters.values()]
 
 
 def parse_stub(text):
     tree = ast.parse(text)
-    classes, funcs = {}, []
+    classes, funcs = {}, {}
     for node in tree.body:
         if isinstance(node, ast.ClassDef):
             info = {"bases": [ast.unparse(b) for b in node.bases], "methods": {}, "assigned": [], "annotated": []}
@@ -742,7 +877,7 @@ def parse_stub(text):
                     info["annotated"].append([st.target.id, st.value is not None])
             classes[node.name] = info
         elif isinstance(node, ast.FunctionDef):
-            funcs.append(node.name)
+            funcs.setdefault(node.name, []).append(full_params_ast(node))
     return classes, funcs
 
 
@@ -998,6 +1133,23 @@ def run_impl(case):
                         for it in case["mod"]["items"] if it["kind"] == "enum"}
         res["others"] = [it["name"] for it in case["mod"]["items"] if it["kind"] in ("plain", "dataclass")]
         res["functions"] = [it["name"] for it in case["mod"]["items"] if it["kind"] == "func"]
+        sigs = {}
+        for it in case["mod"]["items"]:
+            for owner, name, _shape in it.get("expect", []) if it["kind"] == "raw" else []:
+                try:
+                    obj = getattr(mod, name) if owner is None else getattr(mod, owner).__dict__[name]
+                    sigs[f"{owner or ''}.{name}"] = full_params_runtime(obj)
+                except Exception as e:
+                    sigs[f"{owner or ''}.{name}"] = f"ERR {type(e).__name__}: {e}"[:200]
+        for it in case["mod"]["items"]:       # the functions / methods of the ordinary generated items as well
+            if it["kind"] == "func":
+                sigs[f".{it['name']}"] = full_params_runtime(getattr(mod, it["name"]))
+            elif it["kind"] in ("plain", "struct", "enum"):
+                c = getattr(mod, it["name"])
+                for mn in ("__init__", "describe", "total", "label"):
+                    if mn in c.__dict__ and inspect.isfunction(c.__dict__[mn]):
+                        sigs[f"{it['name']}.{mn}"] = full_params_runtime(c.__dict__[mn])
+        res["sigs"] = sigs
     finally:
         TypedPyDefaults.additional_properties_default = saved_default
         sys.path[:] = saved_path
@@ -1063,6 +1215,8 @@ def tags(case, impl, model):
     out = ["apd:" + str(case["apd"])]
     if case.get("zoo"):
         out.append(f"zoo:{case['zoo_pos']}")
+    if case.get("sig_site"):
+        out += [f"sig-site:{case['sig_site']}", f"sig-default:{case['sig_default']}"]
     if "unbuildable" in impl:
         return out + ["module:unbuildable"]
     if "unsupported" in impl:
@@ -1101,7 +1255,7 @@ def tags(case, impl, model):
 
 
 def nontrivial(case):
-    return any(it["kind"] == "struct" and (len(it["fields"]) >= 2 or it["bases"][0]["b"] != "Structure")
+    return any(it["kind"] == "raw" for it in case["mod"]["items"]) or any(it["kind"] == "struct" and (len(it["fields"]) >= 2 or it["bases"][0]["b"] != "Structure")
                for it in case["mod"]["items"])
 
 
